@@ -62,3 +62,7 @@ impl FeatureConstraint for ReachableConstraint {
         Ok(source)
     }
 }
+
+#[cfg(kani)]
+#[path = "/verif/kani/vrp-core/reachable_proofs.rs"]
+mod verif_kani_proofs;
